@@ -232,7 +232,7 @@ def r08_5(ctx):
     marks: Dict[int, str] = {id(loop.iter): "lines"}
     res_calls = []
     for n in ast.walk(f.node):
-        if isinstance(n, ast.For) and ast.unparse(n.iter) == "choices_with_user_set_value":
+        if isinstance(n, ast.For) and ast.unparse(n.iter) in ("choices_with_user_set_value", "choices_with_user_set_value.items()"):
             marks[id(n.iter)] = "choices_applied"
         if isinstance(n, ast.Call) and ast.unparse(n.func).endswith(".resolve_defaults") and repo.enclosing_func(n) is f:
             res_calls.append(n)
